@@ -60,6 +60,21 @@ func runC02Stale(c *Ctx, cached bool) {
 		note("P2 %s", l4)
 	}
 	s.Finish()
+	// P2 started after the last update and has returned (so has P1): the reporter's most recent value must be the last
+	// update NOW -- a further pass may repair a stale value later, but the property speaks about the first pass
+	{
+		var sofar []float64
+		for _, e := range logp.Snapshot() {
+			if e.Kind == "gauge" {
+				sofar = append(sofar, e.F)
+			}
+		}
+		if len(sofar) == 0 || math.Float64bits(sofar[len(sofar)-1]) != math.Float64bits(2) {
+			note("deliveries when P2 had returned %v", sofar)
+			c.Cov.Fail(Failure{Kind: "violated", Clause: "latest-value", Signature: "late-pass-returns-with-stale-value-at-the-reporter", Line: strings.Join(trace, " | "),
+				Reply: fmt.Sprintf("P2 started after the last update (2) and has returned, P1 has returned too; the reporter's deliveries so far are %v", sofar)})
+		}
+	}
 	tally.VerifReportOnce(root) // one more solo pass
 	var got []float64
 	for _, e := range logp.Snapshot() {
